@@ -428,6 +428,7 @@ static int thread_sleeping (int tid)
 }
 
 static volatile int bw_tid;
+static int clear_dead;
 
 static void *bw_thread (void *arg)
 {
@@ -1792,7 +1793,9 @@ static void run_line (char *line)
           emit ("qclear");
           /* the queue is empty now: a writer asleep on not_full must be released by the clear itself (waited for as a
            * CONDITION; the bound is liveness only and is reached only when the writer was left asleep) */
-          if (bw.pending && wait_flag (&bw.done, CLEAR_LIVE_MS))
+          if (bw.pending && !clear_dead && !wait_flag (&bw.done, CLEAR_LIVE_MS))
+            clear_dead = 1;	/* left asleep: do not wait again in this case (the oracle flags the missing `unblocked`) */
+          if (bw.pending && __atomic_load_n (&bw.done, __ATOMIC_ACQUIRE))
             {
               pthread_join (bw.th, 0);
               bw.pending = 0;
